@@ -1,6 +1,7 @@
 (* C08: secret-key locking -- the right password restores the key, nothing else does. *)
 From Coq Require Import List NArith Lia Bool.
 From Rpgp Require Import Base.Octets Base.Res Sym.Cfb Kdf.Kdf Key.Lock Key.LockProofs.
+From Rpgp Require Import Key.LockRules Key.LockRulesProofs.
 Import ListNotations.
 Open Scope N_scope.
 
@@ -86,3 +87,20 @@ Print Assumptions C08_usage_variant.
 Theorem C08_variant_usage : forall v, variant_ok v = true -> variant_of (usage_of v) = v.
 Proof. exact variant_usage_roundtrip. Qed.
 Print Assumptions C08_variant_usage.
+
+(* which parameters the library locks with and which it unlocks, as decision functions of key version,
+   S2K usage, S2K type and hash strength: it never locks a key with parameters it refuses to unlock *)
+Theorem C08_never_locks_what_it_refuses_to_unlock : forall p, lock_allowed p = true -> unlock_allowed p = true.
+Proof. exact lock_implies_unlock. Qed.
+Print Assumptions C08_never_locks_what_it_refuses_to_unlock.
+
+Theorem C08_v6_lock_shape : forall v s w,
+  lock_allowed {| l_ver := 6; l_var := v; l_s2k := s; l_weak := w |} = true ->
+  w = false /\ ((v = PAead /\ (s = TArgon2 \/ s = TIterated)) \/ (v = PCfb /\ (s = TIterated \/ s = TSalted))).
+Proof. exact v6_lock_shape. Qed.
+Print Assumptions C08_v6_lock_shape.
+
+Theorem C08_argon2_only_with_aead : forall p,
+  l_s2k p = TArgon2 -> (lock_allowed p = true \/ (unlock_allowed p = true /\ l_var p <> PLegacy)) -> l_var p = PAead.
+Proof. exact argon2_only_with_aead. Qed.
+Print Assumptions C08_argon2_only_with_aead.
